@@ -126,16 +126,41 @@ def Finder.corrMid (r : Finder) : Rat := r.corr.mid 0
     the sum of the absolute values of the amplitude polynomials on that range. -/
 def Finder.corrRad (r : Finder) : Rat := r.corr.rad 0 tMax
 
+/-- The decidable side conditions under which the generic theorems of `Props/C13.lean` hold for a record:
+    positive period and scale factors; the period exceeds twice the radius of the periodic terms
+    (results strictly increasing); the documented range check; the year-to-JDE constants 365.2425 and
+    1721060 of the anchor formula; `|t| ≤ tMax` at both ends of the domain,
+    half a period included. -/
+def Finder.ok (r : Finder) : Bool :=
+  decide (0 < r.B.toRat) && decide (0 < r.yc.toRat) && decide (0 < r.tc.toRat)
+  && decide (0 < r.B.toRat - 2 * r.corrRad)
+  && decide (r.ylo.toRat = -2000) && decide (r.yhi.toRat = 4000)
+  && decide (r.yc.toRat = 3652425 / 10000) && decide (r.y0.toRat = 1721060)
+  && decide (-(tMax * r.tc.toRat) ≤ r.yc.toRat * r.ylo.toRat + r.y0.toRat - r.tj.toRat - r.B.toRat / 2)
+  && decide (r.yc.toRat * r.yhi.toRat + r.y0.toRat - r.tj.toRat + r.B.toRat / 2 ≤ tMax * r.tc.toRat)
+
 /-- Bound on `|k|` used for the first approximation of perihelion_aphelion (years -4000..+8000 for every planet). -/
 def PAFinder.kMax (r : PAFinder) : Rat := qabs r.C.toRat * 6100
 
+def qmax (a b : Rat) : Rat := if a < b then b else a
+
+/-- Bound on the absolute value of an optional periodic correction for `|k| ≤ kmax`. -/
+def optBound (kmax : Rat) : Option FExpr → Rat
+  | none => 0
+  | some e => qabs (e.mid 0) + e.rad 0 kmax
+
 /-- Bound on Earth's periodic correction (0 for the other planets). -/
 def PAFinder.corrRad (r : PAFinder) : Rat :=
-  let f : Option FExpr → Rat := fun o => match o with
-    | none => 0
-    | some e => qabs (e.mid 0) + e.rad 0 r.kMax
-  let a := f r.corrPeri
-  let b := f r.corrAph
-  if a < b then b else a
+  qmax (optBound r.kMax r.corrPeri) (optBound r.kMax r.corrAph)
+
+/-- Bound on the deviation of `jde(k+1) - jde(k)` from `P` for `|k|, |k+1| ≤ kMax`. -/
+def PAFinder.var (r : PAFinder) : Rat := qabs r.Q.toRat * (2 * r.kMax + 1) + 2 * r.corrRad
+
+/-- Decidable side conditions of the perihelion_aphelion theorems: positive rate, the half step is 1/2,
+    the period exceeds the variation (first approximations strictly increasing), `|k| + 1 ≤ kMax` on -2000..4000. -/
+def PAFinder.ok (r : PAFinder) : Bool :=
+  decide (0 < r.C.toRat) && decide (r.half.toRat = 1 / 2)
+  && decide (0 < r.P.toRat - r.var)
+  && decide (r.C.toRat * (4000 - r.Y0.toRat) + 2 ≤ r.kMax) && decide (r.C.toRat * (r.Y0.toRat + 2000) + 2 ≤ r.kMax)
 
 end Pymeeus.Finders
